@@ -9,8 +9,12 @@ lists (key, scalar attributes) in node order plus edges, the name of the force f
 object belongs to and its `nrexcl`.  What is relied upon of `vermouth.molecule` is transcribed:
 `Block.to_molecule(default_attributes={})`, `Molecule.merge_molecule`, `find_atoms` /
 `attributes_match` (with `Choice`), `add_node`, `add_edge`, `Molecule.copy` + `remove_nodes_from`.
-Interactions, citations, log entries and edge attributes are not modelled (they never influence
-which mapping is produced).  `none` = the real reader raises (any exception).
+The interactions of the fetched blocks (renumbered by `to_molecule` / `merge_molecule`, filtered by
+`Mapping.__init__`), the citation sets, the attributes of edges (of fetched blocks and of
+`[ from/to edges ]` lines, merged as `networkx.Graph.add_edge` does) and non-scalar node attributes
+(as canonical text) are carried along; the parameters and meta of an interaction are an opaque payload
+(the reader never looks at them).  Log entries are not modelled.
+`none` = the real reader raises (any exception).
 -/
 namespace C13.Mapping
 open Proto
@@ -25,6 +29,14 @@ def Dir.str : Dir → String
   | .frm => "from"
   | .to => "to"
 
+/-- an interaction of a library block: section, atoms (node keys) and an opaque payload
+(parameters + meta as canonical text) -/
+structure LInter where
+  sect : String
+  atoms : List String
+  payload : String
+  deriving Repr, Inhabited, DecidableEq
+
 /-- a `Block` / `Modification` of a force field -/
 structure LBlock where
   name : String
@@ -32,7 +44,11 @@ structure LBlock where
   ff : Option String
   nrexcl : Option Int
   nodes : List (String × Attrs)
-  edges : List (String × String)
+  edges : List (String × String × Attrs)
+  /-- in the iteration order of `block.interactions` (type by type) -/
+  inters : List LInter := []
+  /-- `block.citations` (a set; sent sorted) -/
+  citations : List String := ["vermouth"]
   deriving Repr, Inhabited
 
 structure LFF where
@@ -63,12 +79,38 @@ def getW (m : WMap) (i j : Nat) : Option Int := (dget m i).bind (dget · j)
 /-! ### molecules -/
 
 /-- `blocks_from` / `blocks_to`: a `Block()` or the `Molecule` made by `to_molecule` -/
+structure MInter where
+  atoms : List Nat
+  payload : String
+  deriving Repr, Inhabited, DecidableEq
+
 structure Mol where
   ff : Option String := none
   nrexcl : Option Int := none
   nodes : List (Nat × Attrs) := []
-  edges : List (Nat × Nat) := []
+  /-- `(u, v)` as first added, with the attribute dictionary of the edge -/
+  edges : List ((Nat × Nat) × Attrs) := []
+  /-- `interactions`: a `defaultdict(list)`, types in insertion order -/
+  inters : List (String × List MInter) := []
+  /-- `citations` (a set); `Molecule.__init__` starts it as `{'vermouth'}` -/
+  citations : List String := ["vermouth"]
   deriving Repr, Inhabited
+
+/-- `dict(a); .update(b)` -/
+def updAttrs (a b : Attrs) : Attrs := b.foldl (fun acc kv => acc.set kv.1 kv.2) a
+
+/-- `Graph.add_edge(u, v, **attrs)`: a new edge, or an update of the attributes of the existing one -/
+def addEdge (es : List ((Nat × Nat) × Attrs)) (a b : Nat) (attrs : Attrs) : List ((Nat × Nat) × Attrs) :=
+  if es.any (fun e => e.1 = (a, b) || e.1 = (b, a)) then
+    es.map fun e => if e.1 = (a, b) || e.1 = (b, a) then (e.1, updAttrs e.2 attrs) else e
+  else es ++ [((a, b), attrs)]
+
+/-- `interactions[type].append(...)` on a `defaultdict(list)` -/
+def addInter (d : List (String × List MInter)) (sect : String) (it : MInter) : List (String × List MInter) :=
+  dictSet d sect (((d.find? (fun e => e.1 = sect)).map (·.2)).getD [] ++ [it])
+
+/-- set union, kept as a list without duplicates -/
+def unionCit (a b : List String) : List String := a ++ (b.filter fun x => !a.contains x).eraseDups
 
 /-- `attrs.get(k, 1)` used as a summand: `none` = TypeError -/
 def intAttr (a : Attrs) (k : String) : Option Int :=
@@ -95,16 +137,29 @@ def renumber (start : Nat) (dr dc : Int) (nodes : List (String × Attrs)) :
   let ns ← en.mapM fun (i, (_, a)) => (shiftAttrs a dr dc).map fun a' => (i, a')
   pure (ns, en.map fun (i, (k, _)) => (k, i))
 
-def mapEdges (corr : List (String × Nat)) (skipLoops : Bool) (es : List (String × String)) :
-    Option (List (Nat × Nat)) :=
-  (es.filter fun e => !(skipLoops && e.1 = e.2)).mapM fun (a, b) => do
-    pure (← dget corr a, ← dget corr b)
+def mapEdges (corr : List (String × Nat)) (skipLoops : Bool) (es : List (String × String × Attrs)) :
+    Option (List ((Nat × Nat) × Attrs)) :=
+  (es.filter fun e => !(skipLoops && e.1 = e.2.1)).mapM fun (a, b, at_) => do
+    pure ((← dget corr a, ← dget corr b), at_)
+
+def addEdges (es : List ((Nat × Nat) × Attrs)) (new : List ((Nat × Nat) × Attrs)) : List ((Nat × Nat) × Attrs) :=
+  new.foldl (fun acc e => addEdge acc e.1.1 e.1.2 e.2) es
+
+/-- the interactions of a block with their atoms renumbered (`name_to_idx[atom]` / `correspondence[atom]`:
+KeyError for an atom that is not a node) added to `d` -/
+def mapInters (corr : List (String × Nat)) (d : List (String × List MInter)) (its : List LInter) :
+    Option (List (String × List MInter)) :=
+  its.foldlM (fun acc it => do
+    let atoms ← it.atoms.mapM (dget corr)
+    pure (addInter acc it.sect { atoms := atoms, payload := it.payload })) d
 
 /-- `Block.to_molecule(default_attributes={})` -/
 def toMolecule (b : LBlock) : Option Mol := do
   let (ns, corr) ← renumber 0 0 0 b.nodes
+  let its ← mapInters corr [] b.inters
   let es ← mapEdges corr false b.edges
-  pure { ff := b.ff, nrexcl := b.nrexcl, nodes := ns, edges := es }
+  pure { ff := b.ff, nrexcl := b.nrexcl, nodes := ns, edges := addEdges [] es, inters := its,
+         citations := b.citations.eraseDups }
 
 def maxKey (nodes : List (Nat × Attrs)) : Nat := nodes.foldl (fun acc n => max acc n.1) 0
 
@@ -114,16 +169,20 @@ def mergeMol (m : Mol) (b : LBlock) : Option Mol :=
   else if m.nrexcl != b.nrexcl then none
   else if m.nodes.isEmpty then do
     let (ns, corr) ← renumber 1 0 0 b.nodes
+    let its ← mapInters corr m.inters b.inters
     let es ← mapEdges corr true b.edges
-    pure { m with nodes := ns, edges := m.edges ++ es }
+    pure { m with nodes := ns, edges := addEdges m.edges es, inters := its,
+                  citations := unionCit m.citations b.citations }
   else do
     let last := maxKey m.nodes
     let la := (dget m.nodes last).getD []
     let dr ← intAttr la "resid"
     let dc ← intAttr la "charge_group"
     let (ns, corr) ← renumber (last + 1) dr dc b.nodes
+    let its ← mapInters corr m.inters b.inters
     let es ← mapEdges corr true b.edges
-    pure { m with nodes := m.nodes ++ ns, edges := m.edges ++ es }
+    pure { m with nodes := m.nodes ++ ns, edges := addEdges m.edges es, inters := its,
+                  citations := unionCit m.citations b.citations }
 
 /-- `MappingBuilder._add_block` -/
 def addBlock (m : Mol) (b : LBlock) : Option Mol :=
@@ -330,11 +389,11 @@ def edgesLine (d : Dir) (line : String) (c : MCtx) : Option MCtx :=
     | none => none
     | some (a1, cur1) =>
       match resolve c.ids cur1 d at2, optAttrs rest with
-      | some (a2, cur2), some _ =>
+      | some (a2, cur2), some eattrs =>
         match findAtoms (c.mol d) a1, findAtoms (c.mol d) a2 with
         | [n1], [n2] =>
           if n1 = n2 then none
-          else some ((c.setCur d cur2).setMol d { c.mol d with edges := (c.mol d).edges ++ [(n1, n2)] })
+          else some ((c.setCur d cur2).setMol d { c.mol d with edges := addEdge (c.mol d).edges n1 n2 eattrs })
         | _, _ => none
       | _, _ => none
   | _ => none
@@ -441,16 +500,29 @@ structure Emitted where
   mapping : WMap
   refs : List (Nat × Nat)
   fromNodes : List (Nat × Attrs)
-  fromEdges : List (Nat × Nat)
+  fromEdges : List ((Nat × Nat) × Attrs)
   toNodes : List (Nat × Attrs)
-  toEdges : List (Nat × Nat)
+  toEdges : List ((Nat × Nat) × Attrs)
+  fromInters : List (String × List MInter) := []
+  toInters : List (String × List MInter) := []
+  fromCitations : List String := []
+  toCitations : List String := []
   deriving Repr, Inhabited
 
 def edgeLe (x y : Nat × Nat) : Bool := x.1 < y.1 || (x.1 == y.1 && x.2 ≤ y.2)
 
-/-- edges as a canonical set of unordered pairs -/
-def normEdges (es : List (Nat × Nat)) : List (Nat × Nat) :=
-  ((es.map fun (a, b) => if a ≤ b then (a, b) else (b, a)).mergeSort edgeLe).eraseDups
+/-- edges as a canonical list of unordered pairs with their attributes (`addEdge` keeps them distinct) -/
+def normEdges (es : List ((Nat × Nat) × Attrs)) : List ((Nat × Nat) × Attrs) :=
+  (es.map fun ((a, b), at_) => ((if a ≤ b then (a, b) else (b, a)), at_)).mergeSort fun x y => edgeLe x.1 y.1
+
+/-- `Molecule.subgraph` / `remove_nodes_from`: the interactions all of whose atoms are kept; a type
+left without interactions disappears -/
+def keepInters (keys : List Nat) (d : List (String × List MInter)) : List (String × List MInter) :=
+  d.filterMap fun (t, l) =>
+    let l' := l.filter fun it => it.atoms.all keys.contains
+    if l'.isEmpty then none else some (t, l')
+
+def sortStrs (l : List String) : List String := l.eraseDups.mergeSort fun a b => decide (a ≤ b)
 
 /-- `Mapping.__init__`: the nodes of `block_from` that are not keys of `mapping` are removed -/
 def emit (ty : String) (c : MCtx) : Emitted :=
@@ -458,8 +530,10 @@ def emit (ty : String) (c : MCtx) : Emitted :=
   let keys := keep.map (·.1)
   { ffFrom := c.ffFrom, ffTo := c.ffTo, type := ty, names := c.names, mapping := c.mapping, refs := c.refs,
     fromNodes := keep,
-    fromEdges := normEdges (c.molFrom.edges.filter fun e => keys.contains e.1 && keys.contains e.2),
-    toNodes := c.molTo.nodes, toEdges := normEdges c.molTo.edges }
+    fromEdges := normEdges (c.molFrom.edges.filter fun e => keys.contains e.1.1 && keys.contains e.1.2),
+    toNodes := c.molTo.nodes, toEdges := normEdges c.molTo.edges,
+    fromInters := keepInters keys c.molFrom.inters, toInters := c.molTo.inters,
+    fromCitations := sortStrs c.molFrom.citations, toCitations := sortStrs c.molTo.citations }
 
 /-- the section path before line `j` (`self.section` when line `j` is read) -/
 def secAt (T : List Path) (lines : List Line) (j : Nat) : Path :=
@@ -510,11 +584,18 @@ def encAttrs (a : Attrs) : String :=
 
 def encNodes (l : List (Nat × Attrs)) : String := encList (l.map fun n => encList [encNat n.1, encAttrs n.2])
 def encPairs (l : List (Nat × Nat)) : String := encList (l.map fun e => encList [encNat e.1, encNat e.2])
+def encEdges (l : List ((Nat × Nat) × Attrs)) : String :=
+  encList (l.map fun e => encList [encNat e.1.1, encNat e.1.2, encAttrs e.2])
+def encInters (d : List (String × List MInter)) : String :=
+  encList (d.map fun (t, l) => encList [encStr t, encList (l.map fun it =>
+    encList [encList (it.atoms.map encNat), encStr it.payload])])
 
 def encEmitted (e : Emitted) : String :=
   encList [encOptStr e.ffFrom, encOptStr e.ffTo, encStr e.type, encList (e.names.map encStr),
     encList (e.mapping.map fun (i, l) => encList [encNat i, encList (l.map fun (j, w) => encList [encNat j, encInt w])]),
-    encPairs e.refs, encNodes e.fromNodes, encPairs e.fromEdges, encNodes e.toNodes, encPairs e.toEdges]
+    encPairs e.refs, encNodes e.fromNodes, encEdges e.fromEdges, encNodes e.toNodes, encEdges e.toEdges,
+    encInters e.fromInters, encInters e.toInters, encList (e.fromCitations.map encStr),
+    encList (e.toCitations.map encStr)]
 
 def encKey (k : Key × Nat) : String :=
   encList [encOptStr k.1.1, encOptStr k.1.2.1, encList (k.1.2.2.map encStr), encNat k.2]
@@ -525,6 +606,8 @@ def jvalOf (t : Tok) : Option JVal := do
   | [Tok.int 1, Tok.str s] => pure (.str s)
   | [Tok.int 2, Tok.int b] => pure (.bool (b != 0))
   | [Tok.int 3] => pure .null
+  | [Tok.int 4, Tok.str s] => pure (.other s)
+  | [Tok.int 5, l] => do pure (.choice (← strs? l))
   | _ => none
 
 def attrsOf (t : Tok) : Option Attrs := do
@@ -533,19 +616,24 @@ def attrsOf (t : Tok) : Option Attrs := do
     | [k, v] => pure (← k.str?, ← jvalOf v)
     | _ => none
 
-/-- block := [ name ffname|- nrexcl|- [ [key attrs] ... ] [ [a b] ... ] ] -/
+/-- block := [ name ffname|- nrexcl|- [ [key attrs] ... ] [ [a b attrs] ... ] [ [sect [atoms] payload] ... ] [ citation ... ] ] -/
 def blockOf (t : Tok) : Option LBlock := do
   match ← t.list? with
-  | [n, f, x, ns, es] =>
+  | [n, f, x, ns, es, its, cits] =>
     let nodes ← (← ns.list?).mapM fun e => do
       match ← e.list? with
       | [k, a] => pure (← k.str?, ← attrsOf a)
       | _ => none
     let edges ← (← es.list?).mapM fun e => do
       match ← e.list? with
-      | [a, b] => pure (← a.str?, ← b.str?)
+      | [a, b, at_] => pure (← a.str?, ← b.str?, ← attrsOf at_)
       | _ => none
-    pure { name := ← n.str?, ff := ← f.optStr?, nrexcl := ← x.optInt?, nodes := nodes, edges := edges }
+    let inters ← (← its.list?).mapM fun e => do
+      match ← e.list? with
+      | [sct, atoms, pl] => pure ({ sect := ← sct.str?, atoms := ← strs? atoms, payload := ← pl.str? } : LInter)
+      | _ => none
+    pure { name := ← n.str?, ff := ← f.optStr?, nrexcl := ← x.optInt?, nodes := nodes, edges := edges,
+           inters := inters, citations := ← strs? cits }
   | _ => none
 
 /-- library := [ [ ffname [ block ... ] [ modification ... ] ] ... ] -/
